@@ -89,3 +89,15 @@ package strategy
 //@             && params.PodByNodeName[allPodToDelete[j]].ObjectMeta.DeletionTimestamp == nil
 //@             && !compareCurrentPodWithNewPod(params, params.PodByNodeName[allPodToDelete[j]], allPodToDelete[j])
 //@   loop 3 invariant true
+//@
+//@ func ManageUnknown
+//@   requires params != nil && params.NewStatus != nil
+//@   modifies mapof(params.PodByNodeName)
+//@   ensures result != nil && fresh(result) && result1 == nil
+//@   ensures [C04] leftover-replica-set-takes-no-action: len(result.PodsToCreate) == 0 && len(result.PodsToDelete) == 0
+//@   ensures [C14] reports-zero-desired: result.NewStatus != nil && result.NewStatus.Desired == 0
+//@   ensures [C14] counters-ordered: 0 <= result.NewStatus.Available && result.NewStatus.Available <= result.NewStatus.Ready
+//@             && result.NewStatus.Ready <= result.NewStatus.Current
+//@   loop 1 invariant true
+//@   loop 1 modifies mapof(params.PodByNodeName)
+//@   loop 2 invariant 0 <= availablePods && availablePods <= readyPods && readyPods <= currentPods && 0 <= nbIgnoredUnresponsiveNodes
